@@ -4,7 +4,7 @@ import numpy as np
 from common import *
 
 ID = "C09"
-THEOREM_FILES = ["Summer.Props.C09"]
+THEOREM_FILES = ["Summer.Props.C09", "Summer.Props.C09Model"]
 TASK = "task"
 RULE = ("programs with 2-8 parameters at every parameterisable site (flow rates, adjustments, initial distribution, splits, infectiousness "
         "adjustments, mixing matrices, time-function points, computed values, derived-output functions): (a) literal-built model vs "
